@@ -457,6 +457,11 @@ sgsitrf(superlu_options_t *options, SuperMatrix *A, int relax, int panel_size,
                           dense, amax, panel_lsub, segrep, repfnz,
                           marker, parent, xplore, Glu);
 
+	    /* A column that is entirely zero gets the same substitute norm as
+	       in a relaxed supernode, so that its pivot is not replaced by 0. */
+	    for (jj = jcol; jj < jcol + panel_size; jj++)
+		if ( amax[jj - jcol] == 0.0 ) amax[jj - jcol] = fill_ini;
+
 	    /* numeric sup-panel updates in topological order */
 	    spanel_bmod(m, panel_size, jcol, nseg1, dense,
 			tempv, segrep, repfnz, Glu, stat);
